@@ -164,3 +164,65 @@ def loadFilteredSax (T : STree) (nm : Naming) (inp : Input) (f : Filter) : Excep
   buildHamSax T nm inp gids.contains (some hids)
 
 end Pyham.Sax
+
+/-! ### the first pass of a filtered load (`FilterOrthoXMLParser`) as a machine over the same events -/
+namespace Pyham.Sax
+
+/-- the first-pass parser object between two calls -/
+structure FS where
+  gids : List String                  -- geneUniqueId
+  hids : List String := []            -- hogsId
+  cur : Option String := none         -- current_hog
+  depth : Nat := 0                    -- len(hog_stack)
+  refs : List String := []            -- hog_generef
+  add : Bool := false                 -- add_this_hog
+deriving Repr, Inhabited, DecidableEq
+
+/-- one call of `FilterOrthoXMLParser.start` / `.end` inside <groups> (paralogGroup, score and property calls fall through) -/
+def fstep (f : Filter) (s : FS) : Ev → Except Err FS
+  | .ref id _ => .ok { s with refs := s.refs ++ [id], add := s.add || s.gids.contains id }
+  | .ogStart hid _ =>
+    if s.depth == 0 then
+      match hid with
+      | none => .error .key                                               -- attrib["id"]
+      | some i => .ok { s with cur := some i, add := s.add || f.hogIds.contains i, depth := 1 }
+    else .ok { s with depth := s.depth + 1 }
+  | .ogEnd =>
+    if s.depth == 0 then .error .index                                    -- pop from empty list
+    else if s.depth == 1 then
+      match s.cur with
+      | none => .error .unmodelled                                        -- (cannot happen: the group was opened at depth 0)
+      | some i =>
+        if s.add then .ok { s with gids := s.gids ++ s.refs, hids := s.hids ++ [i], cur := none, depth := 0, refs := [], add := false }
+        else .ok { s with cur := none, depth := 0, refs := [], add := false }
+    else .ok { s with depth := s.depth - 1 }
+  | _ => .ok s
+
+def frun (f : Filter) : List Ev → FS → Except Err FS
+  | [], s => .ok s
+  | e :: es, s => do
+    let s ← fstep f s e
+    frun f es s
+
+/-- what the harness reads off the first-pass parser object after a call -/
+def FS.obs (s : FS) : Nat × Nat × Nat × Nat × Bool := (s.gids.length, s.hids.length, s.depth, s.refs.length, s.add)
+
+def ftrace (f : Filter) : List Ev → FS → List (Nat × Nat × Nat × Nat × Bool) × Option Err
+  | [], _ => ([], none)
+  | e :: es, s =>
+    match fstep f s e with
+    | .error err => ([], some err)
+    | .ok s' => let r := ftrace f es s'; (s'.obs :: r.1, r.2)
+
+mutual
+/-- no geneRef outside every orthologGroup (such a reference makes the second pass fail: `hog_stack[-1]` on an empty stack) -/
+def noTopRef : Elem → Bool
+  | .ref _ _ => false
+  | .pg _ its => noTopRefL its
+  | _ => true
+def noTopRefL : List Elem → Bool
+  | [] => true
+  | e :: es => noTopRef e && noTopRefL es
+end
+
+end Pyham.Sax
